@@ -429,13 +429,14 @@ def rule_body_argument_selects_branch(repo: Repo, rep, rule: str = "R4.13") -> N
             for c in calls_in(lp):
                 if isinstance(c.func, ast.Attribute) and c.func.attr == "write_line" and c.args:
                     t = template_of(c.args[0], fn.node)
-                    if t is not None and re.match(r"\s*(if|elif)\b", t.text) and t.text.rstrip().endswith(":"):
+                    if t is not None and t.text.rstrip().endswith(":") and (re.match(r"\s*(if|elif)\b", t.text) or " is not None" in t.text or "content_type" in t.text) \
+                            and not t.text.lstrip().startswith(("def ", "async ", "class ", "else", "try", "except", "for ", "while ", "with ", "#", '"')):
                         conds.append((c, t))
             if not conds:
                 continue
             n += 1
             sub = f"{mg.relpath}:{fn.qualname} per-media-type dispatch"
-            by_arg = [(c, t) for c, t in conds if "is not None" in t.text and any("name" in full(h) for h in t.holes)]
+            by_arg = [(c, t) for c, t in conds if "is not None" in t.text and any("name" in full(L.inline(h, stop=tuple(L.params))) for h in t.holes)]
             if len(by_arg) == len(conds):
                 rep.ok(rule, sub, f"{len(conds)} branch condition template(s), each `<body parameter of the media type> is not None`", fn.loc(conds[0][0]))
             elif const_default:
